@@ -30,6 +30,7 @@ var fns = map[string]interface{}{
 	"Len32": tx.Len32, "Len64": tx.Len64,
 	"Loop": tx.Loop, "CallsLoop": tx.CallsLoop, "SumSquares": tx.SumSquares, "BreakContinue": tx.BreakContinue, "NestedLoops": tx.NestedLoops,
 	"Find": tx.Find, "EarlyReturn": tx.EarlyReturn, "TwoLoops": tx.TwoLoops, "WhileShift": tx.WhileShift,
+	"Counter.Drain": (*tx.Counter).Drain, "Counter.UpTo": (*tx.Counter).UpTo,
 	"Counter.Peek": (*tx.Counter).Peek, "Counter.Bump": (*tx.Counter).Bump, "NewCounter": tx.NewCounter,
 }
 
@@ -86,7 +87,7 @@ func grid(t reflect.Type, small bool) []reflect.Value {
 			add([]uint8{}, []uint8{255}, []uint8{1, 2, 3})
 		}
 	case reflect.Ptr: // *Counter
-		for _, n := range []int32{-5, 0, 7, math.MaxInt32 - 1} {
+		for _, n := range []int32{-5, 0, 7, 900, math.MaxInt32 - 1} {
 			for _, l := range []int32{0, 10, math.MaxInt32} {
 				c := &tx.Counter{}
 				tx.SetCounter(c, n, l)
